@@ -1,5 +1,5 @@
-From FlexVerif Require Import Model.LdmSub.
+From FlexVerif Require Import Model.LdmSub Model.LdmSubReact.
 Require Extraction.
 Require Import ExtrOcamlBasic.
 Extraction Language OCaml.
-Extraction "c14_model.ml" LdmSub.dispatch.
+Extraction "c14_model.ml" LdmSubReact.dispatch.
